@@ -290,6 +290,10 @@ func libResetDepth(name string) int {
 	switch name {
 	case "Discipline.main":
 		return 4 // thread wrapper, main, loop, and the helpers loop calls directly
+	case "Discipline.handler", "Simple.handler":
+		// thread wrapper, handler: the receive at the loop head (v1: also the feedback
+		// select, whose pending operation carries the only live local)
+		return 2
 	}
 	return 0
 }
